@@ -9,6 +9,7 @@ import os
 import random
 from . import common as C
 from . import docgen, docs, infoset
+from . import docs as docs_mod
 
 
 def cause(msg, exc):
@@ -31,6 +32,82 @@ def cause(msg, exc):
 PRES = None
 CT = {}
 ST = {}
+
+
+STRUCTURAL = ('XMLChildContainerWrongElementError', 'XMLChildContainerMaxOccursError', 'XMLChildContainerChoiceHasAnotherChosenChild', 'XMLElementChildrenRequired',
+              'XMLElementCannotHaveChildrenError')
+
+
+def structure_mutant(node, rng):
+    """a copy with one structural change (children only: attributes and text stay valid)"""
+    d = copy.deepcopy(node)
+    nodes = []
+
+    def walk(n):
+        nodes.append(n)
+        for k in n['kids']:
+            walk(k)
+    walk(d)
+    withkids = [n for n in nodes if n['kids']]
+    k = rng.randrange(4)
+    if k == 0 and withkids:
+        n = rng.choice(withkids)
+        del n['kids'][rng.randrange(len(n['kids']))]
+    elif k == 1 and withkids:
+        n = rng.choice(withkids)
+        n['kids'].insert(rng.randrange(len(n['kids']) + 1), copy.deepcopy(rng.choice(n['kids'])))
+    elif k == 2 and withkids:
+        n = rng.choice(withkids)
+        rng.shuffle(n['kids'])
+    else:
+        a, b = rng.choice(nodes), rng.choice(nodes)
+        if b is not d and a is not b:
+            a['kids'].append(copy.deepcopy(b))
+    return d
+
+
+def shape_of_text(text):
+    import xml.etree.ElementTree as ET
+
+    def sh(e):
+        return [e.tag, [sh(c) for c in e]]
+    return sh(ET.fromstring(text))
+
+
+def shape_of_node(n):
+    return [n['tag'], [shape_of_node(k) for k in n['kids']]]
+
+
+def doc_model_correspondence(rep, cases, rng, quick):
+    """the extracted document model (Model/Doc.v + DocTables.v: parse, then emit) against parse_musicxml + to_string on the element structure"""
+    from . import extract
+    docs = list(cases) + [structure_mutant(c, rng) for c in rng.sample(cases, min(len(cases), 600 if quick else 6000)) if c['kids']]
+    m = extract.Model()
+    try:
+        mo = m.run_docs(docs)
+    finally:
+        m.close()
+    idx = [i for i, r in enumerate(mo) if r[0] != 'NOMACHINE']
+    _, ri = docs_mod.run_docs(xml=[docgen.to_xml(docs[i]) for i in idx], xml_tags=[docs[i]['tag'] for i in idx])
+    n = {'OK': 0, 'NOPARSE': 0, 'NOEMIT': 0, 'skipped_value_errors': 0}
+    bad = 0
+    for i, r in zip(idx, ri):
+        model = mo[i]
+        if 'exc' in r:
+            if r['exc'] not in STRUCTURAL:
+                n['skipped_value_errors'] += 1
+                continue
+            impl = ('NOPARSE',) if r['step'] == 'parse' else ('NOEMIT',)
+        else:
+            impl = ('OK', shape_of_text(r['s']))
+        n[model[0]] += 1
+        if impl != model:
+            bad += 1
+            if bad <= 3:
+                rep.violation('document model and implementation disagree on <%s>: model %s, implementation %s' % (docs[i]['tag'], str(model)[:200], str(impl)[:200]),
+                              {'correspondence': 'parse_musicxml + to_string <-> Doc.parse / Doc.emit (element structure)', 'document': shape_of_node(docs[i]),
+                               'model': model, 'implementation': impl, 'implementation_detail': {k: str(v)[:300] for k, v in r.items()}}, found_input=False)
+    rep.coverage['document_model_correspondence'] = dict(n, documents=len(docs), with_a_machine_for_every_element=len(idx), differences=bad)
 
 
 def mutate(node, rng):
@@ -160,6 +237,7 @@ def run(rep):
             rep.finding_or_violation('C09:silent:%s' % kind, 'input with %s is accepted and silently changed: %s' % (what, d), {'document': text[:2500], 'mutation': what, 'difference': d})
         else:
             n_kept += 1
+    doc_model_correspondence(rep, cases, rng, quick)
     sizes = [docgen.size(c) for c in cases]
     rep.coverage.update({'evaluations': len(texts) + len(samples) + len(muts), 'distinct_nontrivial': sum(1 for c in cases if docgen.size(c) >= 3) + len(muts),
                          'traces_validated_against_impl': len(texts) + len(samples) + len(muts), 'valid_documents': len(texts), 'read_without_loss': n_ok,
